@@ -5,7 +5,7 @@ from gen_http import Response, Header, Chunk
 
 HARNESS = "rx_driver"
 LEAN_MODULES = ["ViaProofs.C07"]
-LEMMA_MODULES = ['ViaProofs.Frag.Lines', 'ViaProofs.Frag.Headers', 'ViaProofs.Frag.Compose', 'ViaProofs.C05', 'ViaProofs.Trans.SL', 'ViaProofs.Trans.FL', 'ViaProofs.Trans.CH', 'ViaProofs.Trans.MH', 'ViaProofs.Trans.CK']
+LEMMA_MODULES = ['ViaProofs.Frag.Lines', 'ViaProofs.Frag.Headers', 'ViaProofs.Frag.Compose', 'ViaProofs.C05', 'ViaProofs.Trans.SL', 'ViaProofs.Trans.FL', 'ViaProofs.Trans.CH', 'ViaProofs.Trans.MH', 'ViaProofs.Trans.CK', 'ViaProofs.Trans.RQ', 'ViaProofs.Trans.RS']
 REQUIRED_THEOREMS = ["Via.C07_frag", "Via.RS.receive_head_seq", "Via.RS.receive_head_fail_seq"]
 LEVEL = "proof"
 LEVEL_TEXT = ('PROOF of fragmentation invariance and single-read correctness for the response receiver model (C07_frag); translated response_line / field_line / chunk parsers; differential correspondence incl. response sequences whose reads run over message boundaries, and the same through the REAL http_client read loop.')
@@ -15,7 +15,7 @@ RULE = ("well-formed responses framed by Content-Length or chunked coding (hand-
         "(whole, byte-wise, line-wise, every single cut, every pair of cuts for short messages, structural, random) x response "
         "configurations x containers; sequences of two or three responses on one connection with reads that run over the message boundary "
         "(a read that completes one body and carries the start of the next); expectation by construction; non-trivial = more than one read")
-TRUSTED_BASE = ["tools/cxx2lean.py (translator of the parse_char / parse state machines and of message_headers::parse and rx_chunk::parse: SL, FL, CH from the current C++ into Lean; the model is proved equal to the translation in ViaProofs/Trans)", "Lean 4.33 kernel", "axioms: propext, Classical.choice, Quot.sound at most",
+TRUSTED_BASE = ["tools/cxx2lean.py + tools/cxx2lean_rx.py (translator of the parse_char / parse state machines, message_headers::parse, rx_chunk::parse, rx_request / rx_response::parse and request_receiver / response_receiver::receive + clear from the current C++ into Lean; the model is proved equal to the translation in ViaProofs/Trans; NOT translated and mapped by name to model functions: the header look-ups of message_headers (find, content_length, is_chunked, expect_continue, close_connection))", "Lean 4.33 kernel", "axioms: propext, Classical.choice, Quot.sound at most",
                 "rx_driver (real response_receiver driven like http_client::receive_handler) + via_model driver"]
 ASSUMPTIONS = ["a response without Content-Length and without chunked coding (body delimited by connection close) is outside the "
                "property; it is covered by the C05 safety checks only"]
